@@ -762,6 +762,44 @@ func checkNode(c *vm.Ctx, r *vm.Rand, n node) {
 	}
 }
 
+// checkCountsOnFailure: the counts WriteTo and ReadFrom return are the bytes actually produced and consumed also
+// when the operation fails half-way (the io.WriterTo / io.ReaderFrom contract): the writer is cut off after
+// every k bytes, the input after every k bytes.
+func checkCountsOnFailure(c *vm.Ctx, r *vm.Rand, n node) {
+	kc := kindClass(n.kind)
+	wit := func(k int, dir string) func() any {
+		return func() any {
+			return map[string]any{"kind": n.kind, "reference_bytes": vm.Hex(n.ref), "direction": dir, "cut_after_bytes": k}
+		}
+	}
+	lim := min(len(n.ref), 48)
+	for k := 0; k < lim; k++ {
+		fw := &inject.FaultWriter{K: k}
+		var wn int64
+		var err error
+		if c.Guard("count/write/"+kc, wit(k, "write"), func() { wn, err = n.enc.WriteTo(fw) }) {
+			return
+		}
+		c.Eval(0, false)
+		if err != nil && wn != int64(len(fw.Got)) {
+			c.Violation("count/write/"+kc, fmt.Sprintf("WriteTo into a writer that accepts %d bytes returned n=%d with an error; %d bytes were produced", k, wn, len(fw.Got)), wit(k, "write")())
+			return
+		}
+		d, _ := n.dst(r)
+		bs := &inject.ByteSrc{B: n.ref[:k]}
+		var rn int64
+		if c.Guard("count/read/"+kc, wit(k, "read"), func() { rn, err = d.ReadFrom(bs) }) {
+			return
+		}
+		c.Eval(0, false)
+		if err != nil && rn != int64(bs.Pos) {
+			c.Violation("count/read/"+kc, fmt.Sprintf("ReadFrom of the first %d bytes returned n=%d with an error; %d bytes were consumed", k, rn, bs.Pos), wit(k, "read")())
+			return
+		}
+	}
+	c.Cover("count-on-failure." + kc)
+}
+
 func checkPacket(c *vm.Ctx, r *vm.Rand) {
 	n := r.Range(0, 6)
 	var nodes []node
@@ -846,6 +884,7 @@ func run(c *vm.Ctx) {
 	for i := 0; i < n; i++ {
 		nd := gen(r, 0, true)
 		checkNode(c, r, nd)
+		checkCountsOnFailure(c, r, nd)
 		if i < 3 {
 			c.Sample("field", map[string]any{"field": nd.kind, "wire": vm.Hex(nd.ref)})
 		}
